@@ -72,10 +72,15 @@ DCfg == DirectiveD("cfg", <<ArgDD("o", Named("In"), V("obj", [f |-> IntV(2)]))>>
 DUseCfg == WithDirs(ObjectD("W", <<>>, <<FieldD("w", I, <<>>)>>), <<DU("cfg", <<AV("o", V("obj", [f |-> IntV(4)]))>>)>>)
 XInD == Ext(InputD("In", <<ArgDD("k", I, IntV(5))>>))
 
+\* a directive whose argument is non-null and has a default: left out the default stands in, an explicit null is refused -
+\* in the document that defines the directive and in a later one
+DReq == DirectiveD("req", <<ArgDD("n", NonNull(I), IntV(3))>>, <<"OBJECT">>)
+UseReq(name, args) == WithDirs(ObjectD(name, <<>>, <<FieldD("r", I, <<>>)>>), <<DU("req", args)>>)
+
 GoodDocs ==
   { <<DQuery, DA, DB, DN>>, <<DU1, DE, DIn>>, <<DMut>>, <<DTag, DDate>>, <<XQuery>>, <<XA>>, <<XE, XU>>, <<XIn>>,
     <<DSchema>>, <<DSchemaQ>>, <<DE>>, <<DIn, DMut>>, <<DMut2>>, <<DSub>>, <<XQuery2, XE2>>,
-    <<XAImpl>>, <<DTop, DSchemaTop>>, <<DSub, XSchemaSub>>, <<XSchemaMut>>, <<XDateTag>>, <<DMark, DE3>>, <<DCfg, DUseCfg>>, <<XInD>> }
+    <<XAImpl>>, <<DTop, DSchemaTop>>, <<DSub, XSchemaSub>>, <<XSchemaMut>>, <<XDateTag>>, <<DMark, DE3>>, <<DCfg, DUseCfg>>, <<XInD>>, <<DReq>>, <<UseReq("R1", <<>>)>>, <<DReq, UseReq("R2", <<AV("n", IntV(5))>>)>> }
 BadDocs ==
   { <<Syntax>>, <<XQuery, Syntax>>, <<DSchemaQ, Syntax>>, <<DE, ReadFault>>, <<XE, ReadFault, XU>>,
     <<XE, FXNotFound>>, <<XQuery, FEmpty>>, <<DSchemaQ, FUndef>>, <<FDup>>, <<XIn, FXDupField>>, <<XQuery, FXKind>>,
@@ -83,10 +88,10 @@ BadDocs ==
     \* an operation root type in a document refused only by the final validation; one type extended twice before the failure
     <<FXIface>>, <<DDate, FXIface>>, <<FXUnion>>,
     <<XDateTag, FEmpty>>, <<XETag, XUTag, FUndef>>, <<XInTag, XNTag, FEmpty>>, <<DSub, CloseFault>>, <<XQuery, XE, CloseFault>>,
-    <<XInD, FEmpty>>, <<DMark, FUndef>>, <<DMark, DE3, FEmpty>>, <<DE3, FDup>>, <<DMark, FDup>>,
+    <<XInD, FEmpty>>, <<UseReq("R3", <<AV("n", NullV)>>)>>, <<DReq, UseReq("R3", <<AV("n", NullV)>>)>>, <<DMark, FUndef>>, <<DMark, DE3, FEmpty>>, <<DE3, FDup>>, <<DMark, FDup>>,
     <<DMut2, FEmpty>>, <<DSub, FInOut>>, <<XQuery, XQuery2, FEmpty>>, <<XE, XE2, FXNotFound>>, <<XIn, XIn2, FXDupField>> }
 G1 == <<DQuery, DA, DB, DN>>
 G2 == <<DU1, DE, DIn>>
-Prefixes == [ p0 |-> <<>>, p1 |-> <<G1>>, p2 |-> <<G1, G2>>, p3 |-> <<G1, G2, <<DTag, DDate>>, <<DMut>>>> ]
+Prefixes == [ p0 |-> <<>>, p1 |-> <<G1>>, p2 |-> <<G1, G2>>, p3 |-> <<G1, G2, <<DTag, DDate>>, <<DMut>>>>, p4 |-> <<G1, <<DReq, DMark>>>> ]
 LoadDocs == GoodDocs \cup BadDocs
 =============================================================================
